@@ -155,29 +155,8 @@ func TestC18(t *testing.T) {
 	r.Rule("(a) exhaustive: every package directory under GOROOT/src of the installed toolchain (importable, internal and vendored alike), each alone, with and without PackagePrefix; (b) rapid: sets of 2..10 std paths biased to equal last elements, mixed with non-std paths and hints, random reference order; (c) one gennames run on the installed toolchain, every row compared with the package clause on disk; non-trivial for (b) = >= 1 colliding pair; all enumerated packages count; distinct by case")
 	r.Assume("the real name of a std package is the package clause of the non-test files in its directory under GOROOT/src (read with go/parser, independent of `go list`)")
 
-	// (a)
-	ckS := hx.Check[single]{Name: "std_single", Fn: func(c single) error { return check(c.scenario()) }}
-	if !hx.Replay(r, ckS) {
-		n := 0
-		for i, p := range stdpkg.All() {
-			if !r.Mine(i) {
-				continue
-			}
-			for _, prefix := range []string{"", "pkg"} {
-				c := single{Path: p.Path, Prefix: prefix}
-				hx.One(r, ckS, c)
-				r.NonTrivial(fmt.Sprintf("%+v", c))
-				n++
-			}
-			if p.Importable {
-				r.Class("importable_std_package")
-			} else {
-				r.Class("internal_or_vendored_std_package")
-			}
-		}
-		r.Exhaustive(fmt.Sprintf("all %d package directories of GOROOT/src x 2 prefixes", len(stdpkg.All())))
-	}
-
+	// the colliding sets come first, in a fresh process: a File must not be affected by the Files rendered before it,
+	// and the single-package pass below then runs after many collisions have happened
 	// (b)
 	byLast := map[string][]string{}
 	var importable []string
@@ -241,6 +220,41 @@ func TestC18(t *testing.T) {
 		}
 		return sc
 	})
+
+	// (a)
+	ckS := hx.Check[single]{Name: "std_single", Fn: func(c single) error { return check(c.scenario()) }}
+	if !hx.Replay(r, ckS) {
+		n := 0
+		for i, p := range stdpkg.All() {
+			if !r.Mine(i) {
+				continue
+			}
+			for _, prefix := range []string{"", "pkg"} {
+				c := single{Path: p.Path, Prefix: prefix}
+				hx.One(r, ckS, c)
+				r.NonTrivial(fmt.Sprintf("%+v", c))
+				n++
+			}
+			if p.Importable {
+				r.Class("importable_std_package")
+			} else {
+				r.Class("internal_or_vendored_std_package")
+			}
+		}
+		r.Exhaustive(fmt.Sprintf("all %d package directories of GOROOT/src x 2 prefixes", len(stdpkg.All())))
+	}
+
+	// (a') every importable package alone once more, after the colliding sets were rendered in
+	// this process: what earlier Files did must not change how a later File names a package
+	ckS2 := hx.Check[single]{Name: "std_single_after_sets", Fn: func(c single) error { return check(c.scenario()) }}
+	if !hx.Replay(r, ckS2) {
+		for i, p := range stdpkg.All() {
+			if !r.Mine(i) || !p.Importable {
+				continue
+			}
+			hx.One(r, ckS2, single{Path: p.Path})
+		}
+	}
 
 	// (c)
 	ckT := hx.Check[tableCase]{Name: "gennames_table", Fn: checkTable}
